@@ -62,7 +62,9 @@ func c10Msg(kind string, seq int) []byte {
 		return refcodec.EncodeMessage(h(0x80, 257, 0), []refcodec.Node{ident(296, "test"), {Code: 257, Flags: 0x40, Payload: refcodec.Address(1, []byte{10, 0, 0, 9})},
 			u32avp(266, 13), {Code: 269, Payload: []byte("x")}})
 	case "dwr":
-		return refcodec.EncodeMessage(h(0x80, 280, 0), base)
+		// the header's Application-ID of a watchdog request rotates (0 as the RFC says, or the id of
+		// the application the peers talk): it is a DWR either way, handled by the state machine
+		return refcodec.EncodeMessage(h(0x80, 280, []uint32{0, 4, 0, 16777251}[seq%4]), base)
 	case "rar":
 		return refcodec.EncodeMessage(h(0x80, 258, 0), base)
 	case "raa":
@@ -375,7 +377,7 @@ func c10Server(r *SeqResult, cfg string, oneSeg bool, hists [][]string) {
 		hs, closed := false, false
 		var want []string
 		wantCEA := []uint32{}
-		wantDWA := 0
+		wantDWA, minDWA := 0, 0
 		for i, k := range hist {
 			switch k {
 			case "cer", "cer-retx":
@@ -396,6 +398,12 @@ func c10Server(r *SeqResult, cfg string, oneSeg bool, hists [][]string) {
 			case "dwr":
 				if !closed {
 					wantDWA++
+					// a DWR whose header names another application than 0 reaches the built-in processing by
+					// name, i.e. through the handshake gate: before the handshake it may go unanswered (the
+					// statement asks for answers to handshaken peers)
+					if hs || i%4 == 0 || i%4 == 2 {
+						minDWA++
+					}
 				}
 			default:
 				if hs && !closed {
@@ -438,8 +446,8 @@ func c10Server(r *SeqResult, cfg string, oneSeg bool, hists [][]string) {
 			v = fmt.Sprintf("application handler invocations %v, the gate model allows exactly %v", run.invoked, want)
 		case fmt.Sprint(gotCEA) != fmt.Sprint(wantCEA):
 			v = fmt.Sprintf("CEAs written with result codes %v, expected %v (built-in CER processing must be unchanged)", gotCEA, wantCEA)
-		case gotDWA != wantDWA:
-			v = fmt.Sprintf("%d success DWAs written, expected %d", gotDWA, wantDWA)
+		case gotDWA > wantDWA || gotDWA < minDWA:
+			v = fmt.Sprintf("%d success DWAs written, expected %d (at least %d)", gotDWA, wantDWA, minDWA)
 		case len(panics) > 0:
 			v = "panic: " + strings.Join(panics, "; ")
 		}
